@@ -97,7 +97,6 @@ pub enum Layout {
     /// payload under every null slot is an adversarial value instead of the type default
     Garbage,
 }
-pub const LAYOUTS: [Layout; 3] = [Layout::Compact, Layout::Sliced, Layout::Garbage];
 impl Layout {
     pub fn name(&self) -> &'static str {
         match self {
